@@ -320,8 +320,10 @@ theorem queue_setStopPoint (s : State) (p : Int) : (setStopPoint s p).queue = s.
 
 theorem queue_queueOrTrigger (s : State) (x : Proxy) : (queueOrTrigger s x).queue = s.queue := by
   unfold queueOrTrigger
-  simp only
-  split <;> rfl
+  split
+  · rfl
+  · simp only
+    split <;> rfl
 
 
 theorem queue_trigger (g : Graph) (s : State) (p : Int) (n : String) : (trigger g s p n).queue = s.queue := by
